@@ -92,6 +92,14 @@ func (m *Machine) InstallHarnessModels(pkg *ssa.Package) []string {
 		}
 		rest := name[len("VerifModel_"):]
 		path := pkg.Pkg.Path()
+		if rest == "SQL_ExecContext" {
+			// a harness-side interpreter for the simple statements issued directly on *sql.DB
+			from := "(*database/sql.DB).ExecContext"
+			delete(m.natives, from)
+			m.repls[from] = path + "." + fn.Name()
+			out = append(out, from+" -> "+fn.Name())
+			continue
+		}
 		from := path + "." + rest
 		if len(rest) > 1 && rest[0] == '_' {
 			// _T__m
